@@ -80,9 +80,22 @@ func (n *c26net) ticks(from, to time.Duration, permissive bool) int {
 }
 
 func TestVerifC26(t *testing.T) {
-	depth := mc.Pick(3, 4)
-	maxDev := mc.Pick(2, 3)
-	nOps := mc.Pick(8, 9) // the quick tier leaves out the keep-all prune
+	// all operations, short histories
+	c26run(t, "C26-blocker", mc.Pick(3, 4), mc.Pick(2, 3), mc.Pick(8, 9), nil)
+}
+
+// TestVerifC26Outage: longer histories over the operations that matter for the clause
+// "counted only while the network is available": flag, network toggles and sleeps.
+func TestVerifC26Outage(t *testing.T) {
+	c26run(t, "C26-blocker-outage", mc.Pick(5, 6), mc.Pick(1, 2), 0, []int{1, 4, 5, 6})
+}
+
+// c26run explores driver histories of up to depth operations; the alphabet is ops 1..nOps-1
+// or, when menu is given, exactly the listed operation numbers.
+func c26run(t *testing.T, name string, depth, maxDev, nOps int, menu []int) {
+	if menu != nil {
+		nOps = len(menu) + 1
+	}
 	// the package's own TestMain shortens the resolution for its wall-clock tests; under the
 	// virtual clock the shipped value is used
 	sequencerResolution = time.Second
@@ -93,8 +106,8 @@ func TestVerifC26(t *testing.T) {
 		}
 		return 1
 	}
-	mc.Run(t, mc.Config{ID: "C26", Name: "C26-blocker", MaxDev: maxDev, ShardLevels: 3, Params: map[string]interface{}{
-		"driver_ops": depth, "deviation_bound": maxDev, "flag_timeout": "3s", "wakeup": "1s", "resolution": "1s", "timer_horizon": 60,
+	mc.Run(t, mc.Config{ID: "C26", Name: name, MaxDev: maxDev, ShardLevels: 3, Params: map[string]interface{}{
+		"driver_ops": depth, "operation_menu": fmt.Sprint(menu), "deviation_bound": maxDev, "flag_timeout": "3s", "wakeup": "1s", "resolution": "1s", "timer_horizon": 60,
 		"alphabet":  "Flag(p) Flag(q) Unflag(p) PruneUnseen({q}) PruneUnseen({p,q}) ToggleNetwork Sleep(1s) Sleep(4s); plus at most one racer thread (Unflag(p)|Unflag(q)|PruneUnseen({})) started while a Blocklist call is in progress",
 		"deviations": "a timer firing while the driver could run; a non-default order of timers due at the same instant; a preemption"}},
 		func(x *mc.X) {
@@ -154,6 +167,9 @@ func TestVerifC26(t *testing.T) {
 					if op == 0 {
 						x.Logf("stop")
 						break
+					}
+					if menu != nil {
+						op = menu[op-1]
 					}
 					switch op {
 					case 1, 7:
